@@ -549,4 +549,12 @@ theorem bottlenecksFrom_eq (DX DY : List (List Nat)) (x : Nat) (xs ys : List Nat
   intro y _
   simp only [Function.comp, bottleneck, ent, zipWith_map_absDiff]
 
+/-! ### the recorded draws of the random generator -/
+
+/-- the hypotheses on the recorded draws of one direction: at least one permutation, every permutation non-empty with entries
+    `< len(DX)` (contract of `np.random.permutation(len(DX))`), every first image `< len(DY)` (contract of `np.random.choice(len(DY))`),
+    at least as many first images as permutations -/
+def DrawsOk (DX DY : List (List Nat)) (perms : List (List Nat)) (y0s : List Nat) : Prop :=
+  perms ≠ [] ∧ perms.length ≤ y0s.length ∧ (∀ p ∈ perms, p ≠ [] ∧ ∀ x ∈ p, x < DX.length) ∧ ∀ y ∈ y0s, y < DY.length
+
 end PersimVerif.SrcBridge.MGH
